@@ -88,3 +88,15 @@ CHECKS["C16"] = (
     "Held on the histories observed: writes, polls, KeyUpdates (requested or not, crossing on the wire), post-handshake authentication (several outstanding), heartbeats and ticket delivery from either end over every TLS 1.3 suite (and heartbeat/tickets in TLS <= 1.2) leave data delivered exactly in order, both ends' traffic secrets equal and exactly one harness-computed 'traffic upd' step per KeyUpdate sent in that direction, echoes equal to requests and the client chain recorded by completed PHA only; malformed / unsolicited / mode-forbidden control messages draw a fatal alert (short-padding and over-long heartbeat requests are silently ignored).",
     "PHA corruption is C05's subject; the driver's in-memory transport delivers whole records, so polls are abandoned only at record boundaries.",
     "DESIGN.md section 3, C16")
+CHECKS["C12"] = (
+    "exploration",
+    "runtime monitoring: differential oracle of ct_check_cbc_mac_and_pad and of RecordLayer.recvRecord/sendRecord against a deliberately naive hashlib-only specification and an independent sender",
+    "Held on the inputs observed: the grid MAC {md5, sha1, sha256, sha384} x version {SSLv3..TLS 1.2} x body length 0-340 x last byte (all 256 values in the thorough tier: exhaustive over that grid, 11 edge-biased values in quick) with a well-formed body where one exists, single-byte corruptions of MAC / padding / length byte / content, arbitrary bodies and crafted near-misses; at record level an independent sender produces every legal padding length with and without encrypt-then-MAC and recvRecord must return exactly the plaintext, reject every corruption, and sendRecord output must satisfy the specification.",
+    "One seeded body per cell, not all bodies; SSLv3 padding length == block is a don't-care; timing not observed.",
+    "DESIGN.md section 3, C12")
+CHECKS["C15"] = (
+    "exploration",
+    "runtime monitoring: round-trip and perturbation oracles over seeded values of every message / extension codec in every dispatch context",
+    "Held on the inputs observed: for 223 codec items (every message class, every extension class per context, unknown extension types) generated well-formed values round-trip field-wise and byte-wise, oversize fields make write() raise instead of truncating, and for every proper prefix, trailing bytes outside/inside each length-delimited span (lengths bumped), byte +-1/00/ff and adjacent swaps the parser raises a decode-class error or re-serialises to exactly the bytes it consumed.",
+    "Self-consistency oracle (no independent wire-format reference: symmetric write/parse deviations are C07's subject); 2^24-byte fields not generated; long encodings perturbed on a deterministic sample.",
+    "DESIGN.md section 3, C15")
